@@ -397,6 +397,93 @@ def setup():
     run_lockstep("quick", int(os.environ.get("VERIF_SEED", "1") or 1))
 
 
+def extension_ops(prefix_ops, arenas):
+    """Ops appended to a diverging prefix when searching for a concrete failing input: leave the
+    callback, finish the cycle twice, dereference what is reachable, query weak pointers, drop."""
+    ops = []
+    depth = 0
+    for o in prefix_ops:
+        t = o.split()
+        if t and t[0] == "begin":
+            depth = 1
+        elif t and t[0] in ("end", "enderr", "panic"):
+            depth = 0
+    if depth:
+        # complete the adoption that the diverging barrier was meant to license
+        t = prefix_ops[-1].split() if prefix_ops else []
+        if len(t) >= 4 and t[0] == "m" and t[1] in ("barb", "barf") and t[2] != "-" and t[3] != "-":
+            for sl in range(3):
+                ops.append("m rawstore %s %d %s" % (t[2], sl, t[3]))
+        if len(t) >= 4 and t[0] == "m" and t[1] in ("barbw", "barfw") and t[2] != "-":
+            for sl in range(3):
+                ops.append("m rawstorew %s %d %s" % (t[2], sl, t[3]))
+        ops.append("end")
+    for a in arenas:
+        ops += ["collect %d fc" % a, "collect %d fc" % a, "begin %d mutate" % a]
+        for i in range(4):
+            ops += ["m loadroot 0 %d" % i, "m load 1 0 0", "m load 2 0 1", "m load 3 1 0", "m loadw 0 0 0", "m upgrade 4 0",
+                    "m loadrootw 1 %d" % i, "m upgrade 5 1", "m isdropped 1"]
+        ops += ["end", "collect %d fc" % a]
+    for a in arenas:
+        ops.append("droparena %d" % a)
+    return ops
+
+
+# a concrete failure of one of these, on the extension of a trace where this property's tie broke,
+# is a failure of this property (e.g. an adopted child destructed while reachable breaks C06)
+RELATED = {
+    "C06": ("C06", "C01", "C05"),
+    "C14": ("C14", "C01"),
+    "C11": ("C11", "C01", "C02", "C03", "C04", "C05", "C10"),
+    "C20": ("C20", "C01", "C04"),
+    "C07": ("C07", "C01"),
+    "C02": ("C02", "C01", "C04"),
+    "C09": ("C09", "C10"),
+}
+
+
+def search_failing_input(pid, divergences, budget=8):
+    """For the first few divergences relevant to pid: extend the diverging prefix and run the
+    property oracles on the implementation. Returns a list of violation dicts (possibly empty)."""
+    found = []
+    okh, outh, hbin = build_harness(False)
+    if not okh:
+        return found
+    drv = os.path.join(OCAML_OUT, "driver")
+    tried = 0
+    for d in divergences:
+        if tried >= budget or "script_text" not in d:
+            break
+        tried += 1
+        prefix = [l for l in d["script_text"].split("\n") if l.strip()]
+        # which arenas exist at the divergence: collect from begin/new and droparena ops
+        alive = set()
+        for o in prefix:
+            t = o.split()
+            if t[0] == "begin" and t[2] in ("new", "trynew"):
+                alive.add(int(t[1]))
+            if t[0] == "droparena":
+                alive.discard(int(t[1]))
+        script = prefix + extension_ops(prefix, sorted(alive))
+        rc, itext = vlib.run([hbin, "run"], input="#script ext\n" + "\n".join(script) + "\n", timeout=300)
+        if rc != 0:
+            found.append({"property": pid, "key": None, "desc": "the implementation crashed (exit %d) on the extended diverging script" % rc,
+                          "script": d["script"], "line": len(script) - 1, "script_text": "\n".join(script)})
+            continue
+        rc2, mtext = vlib.run([drv], input=itext, timeout=300)
+        si, sm = lockstep.parse_trace(itext), lockstep.parse_trace(mtext)
+        for a, b in zip(si, sm):
+            def viol(prop, fkey, desc, k, _a=a):
+                if prop in RELATED.get(pid, (pid,)) and len(found) < 3:
+                    found.append({"property": pid, "key": fkey, "desc": desc + (" [observed through the %s oracle]" % prop if prop != pid else ""),
+                                  "script": d["script"] + "+ext", "line": k,
+                                  "script_text": "\n".join(l.optext for l in _a["lines"][:k + 1])})
+            lockstep.run_oracles(a, b, viol, Counter())
+        if found:
+            break
+    return found
+
+
 def run_core(chk, pid, tier, seed, extra_cover_prefixes=()):
     chk.trusted = list(TRUSTED)
     chk.checker_cmd = "cd /verif/coq && coq_makefile -f _CoqProject -o Makefile && make (full .vo) ; coqc Props/%s.v with Print Assumptions" % pid
@@ -431,6 +518,13 @@ def run_core(chk, pid, tier, seed, extra_cover_prefixes=()):
     vm = res.get("vm_crosscheck") or {}
     chk.correspondence("extraction cross-check: vm_compute inside Coq reproduces the OCaml driver's output (%d scripts, %d lines)" % (
         vm.get("scripts", 0), vm.get("lines", 0)), vm.get("mismatches", 1) == 0 and vm.get("lines", 0) > 0, vm.get("detail", ""))
+    mine_v = [v for v in res["violations"] if v["property"] == pid]
+    if mine and not mine_v:
+        # the tie to the code is broken for this property: look for a concrete failing input
+        extra = search_failing_input(pid, mine)
+        chk.cov["failing_input_search"] = {"divergences_extended": min(len(mine), 8), "violations_found": len(extra)}
+        res = dict(res)
+        res["violations"] = list(res["violations"]) + extra
     for v in res["violations"]:
         if v["property"] == pid:
             chk.violation("%s [script %s, step %d]" % (v["desc"], v["script"], v["line"]),
